@@ -3,6 +3,7 @@
 From Coq Require Import List NArith ZArith Lia Bool.
 From AnyTLS Require Import Bytes Cmd Generated Frame Reader Session BytesFacts.
 Import ListNotations.
+Import Sess.
 Open Scope N_scope.
 
 Section Assoc.
